@@ -61,7 +61,7 @@ type C19Stats struct {
 	Pool                                   PoolStats
 	CallerScribbles, FinalizersFired       uint64
 	FaultsFired, DenseFull, DenseRotations uint64
-	Unterminated                           uint64
+	Unterminated, Unreproducible           uint64
 	NontrivialDigests                      map[uint64]struct{}
 	Samples                                []interface{}
 }
